@@ -41,6 +41,17 @@ CHECKS["C16"] = (MC,
     "For every (trusted_proxy_count 1..4, allowed subset of trusted_proxy_headers, header assignment from the vocabulary of Proxy.tla incl. degenerate elements such as ':80', '[', '\"') the real server is run three times (as generated / without proxy headers / hop lists cut to the trusted suffix and untrusted kinds removed); TLC evaluates: never an exception or 500, 400 for uninterpretable headers, metadata taken from exactly the count-th hop from the right, left hops and untrusted kinds neither influence the metadata nor reach the application.",
     "DESIGN.md 3.10, 6 (C16)", _px, "TLA+ specification (Proxy.tla) evaluated by TLC on every executed case; relational oracle: full vs. cut-to-trusted-hops run")
 
+_rs = "trusted: TLC, spec/Response.tla (expected body / delimitation / persistence / refusal rules written from RFC 9112 section 6, PEP 3333 and the property text), the independent client-side reader wv/httpclient.py, the synchronous driver (real server object on fake sockets; tasks run right after the read that queued them)"
+CHECKS["C03"] = (MC,
+    "The whole decision table (HTTP version x request Connection x method incl. HEAD x status class x declared Content-Length absent/exact/larger/smaller x chunk lists incl. empty chunks x list/generator/write()/write()-then-iterable/file wrapper seekable or not) is executed on the real server, each exchange followed by a pipelined request; the wire is lexed by an independent client-side reader and TLC evaluates, per exchange, that status, application headers and body (cut at the declared length) are recovered, that an undelimitable response closes the connection, that a close known in advance is announced and that an unannounced close means the next request is served. Persistence under concurrency (a read-ahead request behind an undelimitable/closing response) is explored with the deterministic scheduler and judged by the Pipeline monitor.",
+    "DESIGN.md 3.4, 6 (C03)", _rs, "exhaustive enumeration of the application/request decision table on the implementation, every exchange judged by TLC against the TLA+ specification Response.tla; plus scheduler exploration for the concurrent clause")
+CHECKS["C08"] = (MC,
+    "Status strings, header names and values over the class alphabet {plain, CR, LF, CRLF, NUL, VT, colon, space, non-latin-1, empty, non-str} with the offending character at every position, hop-by-hop names, headers the server interprets (Content-Length, Date, Server), both start_response calls (initial and exc_info re-call) and header lists mutated after the call are run on the real server; TLC evaluates on the raw head bytes: offending strings refused with 500 and never emitted, clean strings not refused, CR and LF only as line terminators, every application field exactly one head line (letter case of the name aside), every other line a server field.",
+    "DESIGN.md 3.4, 6 (C08)", _rs, "class-alphabet enumeration executed on the implementation, head bytes judged by TLC against the string model of Response.tla")
+CHECKS["C09"] = (MC,
+    "Application scripts x failure point (the call, start_response, every iteration step, every write, close) x exception class (Exception, OSError subclass, BaseException subclass) x expose_tracebacks x log_socket_errors, plus a client disconnect before every step (send fails with EPIPE; or the I/O thread has already read the EOF) incl. the file-wrapper hand-over, are run on the real server; TLC evaluates the failure ladder: nothing escapes HTTPChannel.service(), one complete 500 then close before output, close without further bytes after output, no traceback unless exposed, iterable closed exactly once, wrapped file closed exactly once.",
+    "DESIGN.md 3.4, 6 (C09)", _rs, "fault-point enumeration executed on the implementation, every outcome judged by TLC against the failure ladder of Response.tla")
+
 EXP = "exploration"
 _chan_note = "trusted: TLC (judging), the simulated kernel and scheduler shims (Lock/Condition/select/poll/pipe semantics), the independent response lexer wv/httpclient.py; schedule coverage on the code is bounded (all schedules with <= 1 pre-emption up to a limit, sampled beyond)"
 _chan_tech = "deterministic schedule exploration of the real server (bounded DFS + PCT/pre-emption sampling) with TLC trace validation against the TLA+ property monitor Pipeline.tla"
